@@ -46,7 +46,10 @@ func c03Units(tier string, seed int64) []Unit {
 		for _, base := range []string{"zeros", "ones"} {
 			p, base := p, base
 			units = append(units, Unit{Name: "C03/" + p.Name + "/" + base, Run: func(c *Ctx) {
-				body := p.New()
+				body, ok := c03New(c, p)
+				if !ok {
+					return
+				}
 				e := &BitDFS{Base: BaseZero, Depth: 10, MaxDev: 2, Overrun: true}
 				if base == "ones" {
 					e.Base = BaseOnes
@@ -83,7 +86,10 @@ func c03Units(tier string, seed int64) []Unit {
 		}
 		p := p
 		units = append(units, Unit{Name: "C03/" + p.Name + "/seeds+patterns", Run: func(c *Ctx) {
-			body := p.New()
+			body, ok := c03New(c, p)
+			if !ok {
+				return
+			}
 			n := 300
 			if !quick {
 				n = 20000
@@ -215,4 +221,17 @@ func init() {
 		Units:  c03Units,
 		Budget: map[string]time.Duration{"quick": 60 * time.Second, "thorough": 25 * time.Minute},
 	})
+}
+
+// c03New builds the program's generators. Every catalogue expression is within the documented
+// parameter domain of its constructor, so a construction-time panic is a violation, not a harness error.
+func c03New(c *Ctx, p Prog) (body func(t *rapid.T, r *Rec), ok bool) {
+	defer func() {
+		if r := recover(); r != nil {
+			c.Violate(Violation{Sig: "C03 constructor-panics prog=" + p.Name, Detail: fmt.Sprintf("constructing the generator panicked: %v", r),
+				Replay: map[string]any{"engine": "construct", "program": p.Name}})
+			body, ok = nil, false
+		}
+	}()
+	return p.New(), true
 }
